@@ -366,3 +366,55 @@ func VerifHarness_C06_O6() {
 	}
 	verifReach("end")
 }
+
+// C06/O8 — liveness across a LEAVE.  Four real cores; a leave request of
+// validator 3 (signed by it) goes through consensus, validator 3 stops once it
+// has delivered the block carrying its request; the three remaining validators
+// (all of the new set) go on gossiping through the round at which the change
+// becomes effective, then fairly without new submissions.  Everything they
+// accepted, and every transaction carried by an event they hold - including
+// the events created in the last rounds of the OLD set, whose round-received
+// must be decided with the thresholds of the rounds that receive them - is
+// committed exactly once by all three, and they return to idle.
+func VerifHarness_C06_O8() {
+	s := verifNewSys(4)
+	itx := hg.NewInternalTransactionLeave(*s.peers[3])
+	ih, _ := itx.Body.Hash()
+	itx.Signature = verifSignature(verifKey(3), ih, true)
+	at := []int{4, 13}[verifChoice("leaveSubmittedAt", 2)]
+	gone := false
+	for st := 0; st < 160; st++ {
+		to := st % 4
+		from := (to + 1 + (st/4)%3) % 4
+		if st == at {
+			s.nodes[3].c.addInternalTransaction(itx)
+		}
+		if !gone {
+			for _, b := range s.nodes[3].blocks {
+				if len(b.InternalTransactions()) > 0 {
+					gone = true
+				}
+			}
+		}
+		if gone && (to == 3 || from == 3) {
+			continue
+		}
+		if err := s.pull(from, to, -1); err != nil {
+			panic(fmt.Sprintf("step %d (%d<-%d): %v", st, to, from, err))
+		}
+	}
+	rr := -1
+	for _, b := range s.nodes[0].blocks {
+		if len(b.InternalTransactions()) > 0 {
+			rr = b.RoundReceived()
+		}
+	}
+	if rr < 0 || !gone {
+		verifAssume(false) // the request was not committed within the bound for this shape
+	}
+	if s.nodes[0].c.hg.Store.LastRound() >= rr+6 {
+		verifReach("gossip-went-on-beyond-the-effective-round")
+	}
+	s.fairPhaseAndCheck([]int{0, 1, 2}, 12)
+	verifReach("end")
+}
